@@ -27,12 +27,12 @@ type c09Case struct {
 }
 
 func genProfileAndGraphs(t *rapid.T, name string, nGraphs int) (string, []*m.Graph, *m.Profile) {
-	g := &fgen{t: t, maxAtoms: 4, maxDepth: 3, maxWidth: 3, budget: 7, quant: true, edges: 2}
+	g := &fgen{t: t, maxAtoms: 4, maxDepth: 3, maxWidth: 3, budget: 7, quant: true, edges: 2, viaPaths: true}
 	p := &m.Profile{Name: name}
 	nv := rapid.IntRange(1, 3).Draw(t, "nv")
 	for i := 0; i < nv; i++ {
 		g.budget = 6
-		p.Validations = append(p.Validations, m.Validation{Name: fmt.Sprintf("v%d", i), Level: pick(t, []string{"violation", "warning", "info"}, "level"), Class: "ex.Test", Body: g.formula(0),
+		p.Validations = append(p.Validations, m.Validation{Name: fmt.Sprintf("v%d", i), Level: pick(t, []string{"violation", "warning", "info"}, "level"), Class: "ex.Test", Body: g.bounded(40),
 			Message: pick(t, []string{"", "failed {{ex.p0}}", "plain message"}, "msg")})
 	}
 	for _, v := range p.Validations {
